@@ -90,3 +90,25 @@ def resolve (bound : List Nat) (E : Env) (t : List Tok) : List (Option Nat) :=
   (refs t).map fun n => if bound.contains n then none else some (E n)
 
 end Educe.Names
+
+namespace Educe.Names
+
+/-- Binders of the templates of one handler (group): templates of different handlers are never
+    spliced into each other, so a binder of one handler does not bind in another. -/
+def groupBinders (groups : List Nat) (templates : List (List Tok)) (g : Nat) : List Nat :=
+  ((groups.zip templates).filter fun p => p.1 == g).flatMap fun p => binders .lit .lit p.2 ++ structGenerics p.2
+
+def openInGroup (groups : List Nat) (templates : List (List Tok)) (g : Nat) : List Nat :=
+  let b := groupBinders groups templates g
+  ((groups.zip templates).filter fun p => p.1 == g).flatMap fun p => openIdents b p.2
+
+/-- Free references of all templates, binders taken per handler. -/
+def allOpenGrouped (groups : List Nat) (templates : List (List Tok)) : List Nat :=
+  (groups.eraseDups.flatMap (openInGroup groups templates)).eraseDups
+
+/-- What a reference in a template resolves to: a binder the generated code introduces itself
+    (`none`), or whatever the derive site's environment `env` says the name means there. -/
+def resolveAll {α : Type} (bound : List Nat) (env : Nat → α) (t : List Tok) : List (Nat × Option α) :=
+  (refs t).map fun n => if bound.contains n then (n, none) else (n, some (env n))
+
+end Educe.Names
